@@ -310,7 +310,7 @@ func (p *Prepared) prepareOp(op *Op) (*prepOp, bool) {
 			return nil, false
 		}
 		po.expVal, po.expErr = v, errs
-		if op.Target > 0 && op.VSeed != 0 && po.ti.Family == "FM" && errs == "" {
+		if op.Target > 0 && op.VSeed != 0 && po.ti.Family == "FM" && errs == "" && op.Pat != "damaged" && op.Pat != "torn" {
 			// merge model: only when the value behind the bytes is known and
 			// its fresh round trip is the identity
 			po.srcVal = sc.genValue(op)
